@@ -45,13 +45,13 @@
 package symx // import "golang.org/x/tools/go/ssa/interp"
 
 import (
-	"runtime/debug"
 	"fmt"
 	"go/token"
 	"go/types"
 	"log"
 	"os"
 	"runtime"
+	"runtime/debug"
 	"slices"
 	_ "unsafe"
 
@@ -333,6 +333,14 @@ func visitInstr(fr *frame, instr ssa.Instruction) continuation {
 		}
 
 	case *ssa.MakeSlice:
+		if lv, isSym := fr.get(instr.Len).(sym); isSym && fr.get(instr.Cap) == fr.get(instr.Len) {
+			if st, ok := instr.Type().Underlying().(*types.Slice); ok {
+				if b, ok := st.Elem().Underlying().(*types.Basic); ok && b.Kind() == types.Uint8 && fr.i.x.isBytesLen(lv.t) {
+					fr.env[instr] = &byteBuf{n: lv.t}
+					break
+				}
+			}
+		}
 		ncap := asInt64(fr.i.x.concretize(fr.get(instr.Cap), "make cap"))
 		nlen := asInt64(fr.i.x.concretize(fr.get(instr.Len), "make len"))
 		if nlen < 0 || ncap < nlen {
@@ -508,6 +516,9 @@ func callSSA(i *interpreter, caller *frame, callpos token.Pos, fn *ssa.Function,
 	fr.caller = caller
 	if fn.Parent() == nil {
 		name := fn.String()
+		for k := range args {
+			args[k] = norm(args[k])
+		}
 		if r, ok := callIntrinsic(fr, fn, args); ok {
 			return r
 		}
@@ -697,4 +708,3 @@ func doRecover(caller *frame) value {
 	}
 	return iface{}
 }
-
